@@ -179,6 +179,43 @@ def correspondence(ctx):
         meta.append(("propagate", list(map(float, real)), sp, sp * n + 2.0, {"ori": ori, "sma": sma, "t": t, "x": x, "mans": mans}))
         napplied = sum(1 for m in mans if t >= m[1] > 0)
         out.count(key=reqs[-1], nontrivial=t != 0, kind="propagate-" + ori, mans=len(mans), applied=napplied, chrono=chrono, edge=edge)
+    # maneuver lists of every shape (overlapping burns, impulses inside burns, non-chronological, dated before the orbit), dates at /
+    # beside / inside / after every maneuver and before the orbit's date; a second leg from the returned orbit (orbit date t0 != 0);
+    # and the Lean reference solution `hillSol` (what the sequencing theorems compare `cwPropagate` with) against the independent integration
+    for _ in range(ctx.n(250, 6000)):
+        sma, period, x, _t = gen_case(rng)
+        ori = rng.choice(["QSW", "TNW"])
+        kind, mans = gen_sequence(rng, period)
+        orb, prop, d0 = make(ori, sma, x, mans)
+        n = float(prop.n)
+        dates = interesting_dates(rng, mans, period)
+        t = rng.choice(dates)
+        real = orb.propagate(timedelta(seconds=t))
+        reqs.append(" ".join(["cw", "1" if ori == "TNW" else "0", f2b(n), f2b(t)] + [f2b(v) for v in x] + man_tokens(mans)))
+        sp, sv = seq_scale(x, mans, 0.0, t)
+        meta.append(("propagate", list(map(float, real)), sp, sp * n + sv, {"ori": ori, "sma": sma, "t": t, "x": x, "mans": mans}))
+        out.count(key=reqs[-1], nontrivial=t != 0, kind="propagate-seq-" + ori, branch=classify(mans, 0.0, t), shape=shape(mans), scenario=kind)
+        t1, t2 = rng.sample(dates, 2)
+        if t1 < 0:
+            t1, t2 = t2, t1
+        if t1 > 0:
+            mid = orb.propagate(timedelta(seconds=t1))
+            xm = [float(v) for v in mid]
+            real2 = mid.propagate(timedelta(seconds=q(t2 - t1)))
+            reqs.append(" ".join(["cw0", "1" if ori == "TNW" else "0", f2b(n), f2b(t2), f2b(t1)] + [f2b(v) for v in xm] + man_tokens(mans)))
+            sp, sv = seq_scale(xm, mans, t1, t2)
+            meta.append(("propagate-second-leg", list(map(float, real2)), sp, sp * n + sv, {"ori": ori, "sma": sma, "t0": t1, "t": t2, "x": xm, "mans": mans}))
+            out.count(key=reqs[-1], kind="second-leg-" + ori, branch=classify(mans, t1, t2), shape=shape(mans), scenario=kind)
+        t0r = rng.choice([0.0, 0.0, rng.choice(dates)])
+        tr = rng.choice(dates)
+        ref = hill_reference(n, x, mans, t0r, tr)
+        reqs.append(" ".join(["cwref", f2b(n), f2b(tr), f2b(t0r)] + [f2b(v) for v in x] + man_tokens(mans)))
+        sp, sv = seq_scale(x, mans, t0r, tr)
+        meta.append(("spec-reference", list(map(float, ref)), 10 * sp, 10 * (sp * n + sv), {"sma": sma, "t0": t0r, "t": tr, "x": x, "mans": mans}))
+        out.count(key=reqs[-1], kind="spec-reference", direction="backward" if tr < t0r else "forward", shape=shape(mans))
+        reqs.append(" ".join(["cwfix", f2b(n), f2b(tr), f2b(t0r)] + [f2b(v) for v in x] + man_tokens(mans)))
+        meta.append(("fixed-sequencing-reference", list(map(float, ref)), 10 * sp, 10 * (sp * n + sv), {"sma": sma, "t0": t0r, "t": tr, "x": x, "mans": mans}))
+        out.count(key=reqs[-1], kind="fixed-sequencing-reference", direction="backward" if tr < t0r else "forward", shape=shape(mans))
     helper_formulas(out, rng, ctx.n(40, 400))
     replies = core.Driver().run(reqs)
     for req, (kind, real, sp, sv, inp), rep in zip(reqs, meta, replies):
@@ -322,10 +359,263 @@ def oracle(ctx, widened):
         if not np.all(np.abs(d - rhs) <= (1e-5 * sc2 * n + 1e-9) * np.array([1, 1, 1, n, n, n]) * 10 + 1e-8):
             out.fail("hill-residual-thrust", "state during a continuous maneuver violates the forced Hill equations",
                      {"sma": sma, "t": tq, "x": x, "man": ["c", ts, te, acc]}, observed=list(map(float, d)), expected=list(map(float, rhs)))
+    piecewise(out, rng, 600 if (widened or ctx.thorough) else 90)
     helpers(out, rng, 60 if (widened or ctx.thorough) else 12)
     vbar(out, rng, 40 if (widened or ctx.thorough) else 8)
     out.sample({"checks": "hill residual (free, thrust), compose, tnw permutation, impulse jump, compose across impulse, CWHelper outcomes"})
     return out
+
+
+# ---------------------------------------------------------------- independent reference: Hill's equations, piecewise-constant thrust
+
+def _expm(M):
+    """matrix exponential by scaling and squaring of the Taylor series (no closed form, no scipy)"""
+    import numpy as np
+    nrm = float(np.abs(M).sum(axis=1).max())
+    k = max(0, int(math.ceil(math.log2(nrm / 0.25)))) if nrm > 0.25 else 0
+    A = M / (2.0 ** k)
+    E = np.eye(len(M))
+    T = np.eye(len(M))
+    for j in range(1, 22):
+        T = T @ A / j
+        E = E + T
+    for _ in range(k):
+        E = E @ E
+    return E
+
+
+def hill_flow(n, dt, s, acc):
+    """exact flow of Hill's equations with the constant acceleration `acc` over `dt` seconds (dt < 0: backwards), integrated as
+    exp of the augmented system matrix in the dimensionless variables (tau = n t, v/n, a/n^2) — shares nothing with cw.py"""
+    import numpy as np
+    if dt == 0:
+        return np.array(s, dtype=float)
+    M = np.zeros((7, 7))
+    M[0, 3] = M[1, 4] = M[2, 5] = 1.0
+    M[3, 0] = 3.0
+    M[5, 2] = -1.0
+    M[3, 4] = 2.0
+    M[4, 3] = -2.0
+    M[3:6, 6] = np.array(acc, dtype=float) / (n * n)
+    y = np.concatenate([np.array(s[:3], dtype=float), np.array(s[3:], dtype=float) / n, [1.0]])
+    y = _expm(M * (n * dt)) @ y
+    return np.concatenate([y[:3], y[3:6] * n])
+
+
+def hill_reference(n, x0, mans, t0, t):
+    """state at date t of THE solution of Hill's equations through (t0, x0): thrust = sum of the burns active at each instant
+    (a burn is active on [ts, te)), velocity jump dv at every impulse date (the state AT tm contains the jump); t < t0: the
+    maneuvers between t and t0 are undone"""
+    import numpy as np
+    s = np.array(x0, dtype=float)
+    if t == t0:
+        return s
+    lo, hi = min(t0, t), max(t0, t)
+    cuts = {t0, t}
+    for m in mans:
+        for c in ((m[1],) if m[0] == "i" else (m[1], m[2])):
+            if lo < c < hi:
+                cuts.add(c)
+    fwd = t > t0
+    cuts = sorted(cuts, reverse=not fwd)
+
+    def dv_at(c):
+        return sum((np.array(m[2], dtype=float) for m in mans if m[0] == "i" and m[1] == c), np.zeros(3))
+    if not fwd:
+        s[3:] -= dv_at(t0)              # an impulse dated exactly t0 is part of x0: going back, it is undone first
+    for a, b in zip(cuts[:-1], cuts[1:]):
+        mid = 0.5 * (a + b)
+        acc = sum((np.array(m[3], dtype=float) for m in mans if m[0] == "c" and m[1] <= mid < m[2]), np.zeros(3))
+        s = hill_flow(n, b - a, s, acc)
+        if fwd:
+            s[3:] += dv_at(b)           # includes b == t (tm <= t)
+        elif b != t:
+            s[3:] -= dv_at(b)           # t < tm: undone; an impulse dated exactly t stays
+    return s
+
+
+def man_active(m, t0, t):
+    """does propagate(t) of an orbit dated t0 have to account for maneuver m (true solution)"""
+    if m[0] == "i":
+        return (t0 < m[1] <= t) or (t < m[1] <= t0)
+    return (m[2] > t0 and t > m[1]) if t >= t0 else (m[1] < t0 and m[2] > t)
+
+
+def classify(mans, t0, t):
+    """call-site description of a (list, orbit date, target date) triple: which branch sequence of propagate() it takes.
+    The two open findings are exactly the first two classes."""
+    if t >= t0:
+        for i, m in enumerate(mans):
+            if m[0] == "c" and m[2] > t0 and t >= m[1] and m[1] <= t < m[2]:
+                # propagate() returns from inside the loop here
+                if any(man_active(mm, t0, t) for mm in mans[i + 1:]):
+                    return "date-inside-burn-skips-later-listed-maneuver"
+                return "date-inside-burn"
+        return "forward-outside-burns"
+    if any(man_active(m, t0, t) and not (m[0] == "c" and m[1] <= t and m[2] > t0) for m in mans) or \
+            sum(1 for m in mans if m[0] == "c" and m[1] <= t and m[2] > t0) > 1:
+        return "backward-across-maneuver"
+    return "backward-clear"
+
+
+def shape(mans):
+    """structure of a maneuver list: overlapping burns / impulse inside a burn / non-chronological"""
+    tags = []
+    burns = [m for m in mans if m[0] == "c"]
+    if any(a is not b and a[1] < b[2] and b[1] < a[2] for a in burns for b in burns):
+        tags.append("overlap")
+    if any(m[0] == "i" and b[1] <= m[1] <= b[2] for m in mans for b in burns):
+        tags.append("imp-in-burn")
+    st = [m[1] for m in mans]
+    if st != sorted(st):
+        tags.append("nonchrono")
+    return "+".join(tags) or "plain"
+
+
+def gen_sequence(rng, period):
+    """maneuver lists of every shape: overlapping / nested burns, impulses inside and at the ends of burns, back-to-back burns,
+    non-chronological order, maneuvers dated before the orbit (already part of its state)"""
+    u = lambda a, b: q(rng.uniform(a, b) * period)
+    acc = lambda: [rng.uniform(-1e-3, 1e-3) for _ in range(3)]
+    dv = lambda: [rng.uniform(-0.5, 0.5) for _ in range(3)]
+    kind = rng.choice(["overlap2", "overlap3", "nested", "imp-in-burn", "back-to-back", "coincident", "disjoint", "mixed", "past"])
+    a = u(0.02, 0.5)
+    d = u(0.1, 0.5)
+    if kind == "overlap2":
+        mans = [("c", a, q(a + d), acc()), ("c", q(a + rng.uniform(0.1, 0.9) * d), q(a + d + u(0.05, 0.4)), acc())]
+    elif kind == "overlap3":
+        b = q(a + rng.uniform(0.2, 0.6) * d)
+        c = q(a + rng.uniform(0.6, 0.95) * d)
+        mans = [("c", a, q(a + d), acc()), ("c", b, q(b + d), acc()), ("c", c, q(c + d), acc())]
+    elif kind == "nested":
+        b = q(a + rng.uniform(0.1, 0.4) * d)
+        mans = [("c", a, q(a + d), acc()), ("c", b, q(b + rng.uniform(0.1, 0.5) * d), acc())]
+    elif kind == "imp-in-burn":
+        mans = [("c", a, q(a + d), acc()), ("i", q(a + rng.uniform(0.1, 0.9) * d), dv())]
+        if rng.random() < 0.5:
+            mans = [("i", q(a * rng.uniform(0.2, 0.9)), dv())] + mans + [("i", q(a + d + u(0.02, 0.3)), dv())]
+    elif kind == "back-to-back":
+        b = q(a + d)
+        mans = [("c", a, b, acc()), ("c", b, q(b + u(0.05, 0.4)), acc())]
+        if rng.random() < 0.5:
+            mans.insert(1, ("i", b, dv()))
+    elif kind == "coincident":
+        # vbar_linear pattern: impulse, burn starting at the same date, impulse at its end — and the other listing orders
+        b = q(a + d)
+        mans = [("i", a, dv()), ("c", a, b, acc()), ("i", b, dv())]
+        if rng.random() < 0.4:
+            mans = [mans[1], mans[0], mans[2]]
+    elif kind == "disjoint":
+        mans, c = [], a
+        for _ in range(rng.choice([1, 2, 3, 4])):
+            if rng.random() < 0.5:
+                mans.append(("i", c, dv()))
+                c = q(c + u(0.01, 0.3))
+            else:
+                e = q(c + u(0.02, 0.3))
+                mans.append(("c", c, e, acc()))
+                c = q(e + (u(0.01, 0.3) if rng.random() < 0.7 else 0.0))
+    elif kind == "mixed":
+        mans = []
+        for _ in range(rng.choice([2, 3, 4, 5])):
+            c = u(0.02, 1.2)
+            mans.append(("i", c, dv()) if rng.random() < 0.4 else ("c", c, q(c + u(0.02, 0.6)), acc()))
+        mans.sort(key=lambda m: m[1])
+    else:  # past: maneuvers dated before the orbit, a burn under way at the orbit's date
+        mans = [("i", -u(0.05, 0.5), dv()), ("c", -u(0.3, 0.6), -u(0.05, 0.2), acc()), ("c", -u(0.01, 0.2), u(0.05, 0.4), acc()), ("i", u(0.5, 0.9), dv())]
+        if rng.random() < 0.5:
+            mans.append(("i", 0.0, dv()))
+    if rng.random() < 0.25:
+        rng.shuffle(mans)
+    return kind, mans
+
+
+def interesting_dates(rng, mans, period):
+    """dates before / inside / exactly at the ends of / just beside / after every maneuver, and before the orbit's date"""
+    c = [0.0, q(-rng.uniform(0.05, 1.0) * period)]
+    last = 0.0
+    for m in mans:
+        ends = (m[1],) if m[0] == "i" else (m[1], m[2])
+        for e in ends:
+            c += [e, q(e + 0.001), q(e - 0.001)]
+            last = max(last, e)
+        if m[0] == "c":
+            c.append(q(rng.uniform(m[1], m[2])))
+    ev = sorted({e for m in mans for e in ((m[1],) if m[0] == "i" else (m[1], m[2]))})
+    for a, b in zip(ev[:-1], ev[1:]):
+        c.append(q(rng.uniform(a, b)))
+    c += [q(last + rng.uniform(0.01, 1.0) * period), q(rng.uniform(0.0, 2.0) * period)]
+    return c
+
+
+def perm_mans(mans):
+    p3 = lambda v: [v[1], -v[0], v[2]]
+    return [(m[0], m[1], p3(m[2])) if m[0] == "i" else (m[0], m[1], m[2], p3(m[3])) for m in mans]
+
+
+def seq_scale(x, mans, t0, t):
+    span = abs(t - t0) + 1.0
+    sv = max(abs(v) for v in x[3:]) + sum(max(abs(v) for v in m[2]) if m[0] == "i" else max(abs(v) for v in m[3]) * (m[2] - m[1]) for m in mans)
+    return max(abs(v) for v in x[:3]) + span * sv + 1.0, sv + 1e-3
+
+
+def check_seq(out, tag, ori, sma, x, mans, t0, t, got, n, kind):
+    """`got` = what the library returned (in orientation `ori`) for an orbit dated t0 with state x propagated to t"""
+    import numpy as np
+    xq = x if ori == "QSW" else [-x[1], x[0], x[2], -x[4], x[3], x[5]]
+    mq = mans if ori == "QSW" else [(m[0], m[1], [-m[2][1], m[2][0], m[2][2]]) if m[0] == "i" else (m[0], m[1], m[2], [-m[3][1], m[3][0], m[3][2]]) for m in mans]
+    ref = hill_reference(n, xq, mq, t0, t)
+    if ori == "TNW":
+        ref = np.array(P6(list(ref)))
+    sp, sv = seq_scale(x, mans, t0, t)
+    cls = classify(mans, t0, t)
+    out.count(key=(tag, ori, sma, t0, t, len(mans)), kind=f"{tag}-{cls}", shape=shape(mans), scenario=kind)
+    tol = np.array([1e-8 * sp + 1e-7] * 3 + [1e-8 * (sp * n + sv) + 1e-10] * 3)
+    if not np.all(np.abs(np.array(got) - ref) <= tol):
+        if cls in ("date-inside-burn-skips-later-listed-maneuver", "backward-across-maneuver"):
+            fam = "piecewise-" + cls
+        else:
+            fam = f"piecewise-{cls}-{shape(mans)}"
+        out.fail(fam, "the propagated state is not the solution of Hill's equations forced by the sum of the active thrusts and the impulses at their dates",
+                 {"check": tag, "ori": ori, "sma": sma, "x": x, "mans": mans, "t0": t0, "t": t}, observed=[float(v) for v in got], expected=[float(v) for v in ref])
+        return False
+    return True
+
+
+def piecewise(out, rng, N):
+    """propagate() against the independent integration of Hill's equations: every list shape, every kind of date, one leg from the
+    initial orbit and a second leg from the returned orbit (which still carries the list) forwards and backwards; superposition"""
+    import numpy as np
+    from beyond.dates import timedelta
+    for _ in range(N):
+        sma, period, x, _t = gen_case(rng)
+        ori = rng.choice(["QSW", "TNW"])
+        kind, mans = gen_sequence(rng, period)
+        orb, prop, d0 = make(ori, sma, x, mans)
+        n = float(prop.n)
+        dates = interesting_dates(rng, mans, period)
+        for t in rng.sample(dates, min(4, len(dates))):
+            got = np.array(orb.propagate(timedelta(seconds=t)))
+            ok = check_seq(out, "one-leg", ori, sma, x, mans, 0.0, t, got, n, kind)
+            if ok and len(mans) >= 2 and rng.random() < 0.3:
+                # superposition: the effect of the list is the sum of the effects of its members
+                free = np.array(make(ori, sma, x)[0].propagate(timedelta(seconds=t)))
+                parts = sum(np.array(make(ori, sma, x, [m])[0].propagate(timedelta(seconds=t))) - free for m in mans)
+                sp, sv = seq_scale(x, mans, 0.0, t)
+                cls = classify(mans, 0.0, t)
+                out.count(key=("superposition", ori, sma, t), kind="superposition-" + cls)
+                if not np.allclose(got - free, parts, rtol=0, atol=1e-8 * sp + 1e-7):
+                    out.fail(f"superposition-{cls}-{shape(mans)}", "state with all maneuvers differs from the sum of the single-maneuver effects",
+                             {"ori": ori, "sma": sma, "x": x, "mans": mans, "t": t}, observed=list(map(float, got - free)), expected=list(map(float, parts)))
+        # second leg from a returned orbit: its date may lie inside / after any maneuver; target before or after it
+        t1, t2 = rng.sample(dates, 2)
+        if t1 < 0:
+            t1, t2 = t2, t1
+        if t1 > 0:
+            mid = orb.propagate(timedelta(seconds=t1))
+            xm = [float(v) for v in mid]
+            got = np.array(mid.propagate(timedelta(seconds=q(t2 - t1))))
+            check_seq(out, "second-leg", ori, sma, xm, mans, t1, t2, got, n, kind)
 
 
 def helpers(out, rng, N):
